@@ -40,6 +40,8 @@ Applied(t) == [i \in DOMAIN t.applied.codes |-> [asym |-> ((i - 1) % Len(t.asym)
 Verdict(t) ==
   LET g == Guard(t) rows == t.uc.rows N == t.n tab == ImgTable(t.ops, t.asym, t.n) small == Len(t.ops) * Len(t.asym) <= 64 IN
   IF g # "ok" THEN g ELSE
+  \* the object constructed for this (number, choice) must carry the operations tabulated for that setting
+  IF CodeSet(t.ops) # CodeSet(t.table_ops) \/ Len(t.ops) # Len(t.table_ops) THEN "REJECT SettingOperations" ELSE
   IF t.uc.exc # "" THEN "REJECT Raised" ELSE
   IF t.uc.off THEN "REJECT OnGrid" ELSE
   \* fl = floor of each reported fractional coordinate: it must be 0, i.e. the coordinate lies in [0,1)
